@@ -350,6 +350,9 @@ def run(prog, rep):
     # 'a block equals its own decode': the text fields come back as they were written only if the string codec is inverse
     from .. import primitives as PR
     rep.attempt(PR.string_codec, prog, rep)
+    # the byte-level comparisons are faithful to content only while the numeric primitive encodes CONTENT (element order C,
+    # fixed dtype), not the memory layout of the array that happens to hold it
+    rep.attempt(PR.tdftype_primitives, prog, rep)
     rep.explanation = (
         "the oracle for 'content' is the writer: every attribute the layout term of C._write reads must take part in C.__eq__ "
         "(eq-coverage) unless __eq__ is byte-level (serialises both operands, faithful by C01); element-wise zip comparisons "
